@@ -202,6 +202,13 @@ V_HARNESS(h_msg)
     if (post == REQ_TOKEN_RETURNED)
       V_ASSERT(pre != REQ_TOKEN_NONE, "channel_owner_only_after_grant");
   }
+  /* VBI_PROXY_CHN_RELEASE ("revoke a previous channel request and return the token", proxy-msg.h): whatever its token state was, an
+     accepted NOTIFY with that flag leaves the client WITHOUT a request - no token and no valid profile - so that the scheduler can never
+     grant to a client that has withdrawn ("granted only to a client that asked" over more than one step) */
+  if (type == MSG_TYPE_CHN_NOTIFY_REQ && (nflags & VBI_PROXY_CHN_RELEASE) && a->state != REQ_STATE_CLOSED && o0[ACT].state == REQ_STATE_FORWARD) {
+    V_ASSERT(a->chn_state.token_state == REQ_TOKEN_NONE && !a->chn_profile.is_valid, "release_withdraws_the_request");
+    V_REACH("released");
+  }
   w_assert_inv("msg");
   V_END();
 }
